@@ -143,13 +143,14 @@ def run_options(mutate=None):
     return dict(obls=obls, paths=n, sources=[L.info()], consistent=True)
 
 
-def run_solve_step(mutate=None):
+def run_solve_step(mutate=None, prefixes=("C14.",)):
     """Solution(..., _solve_step=k) / from_hdf5(path, solve_step=k) load the data of step k (0 -> first, negative -> from the end)"""
     mut = [(o, n) for (m, o, n) in (mutate or []) if m == SOL]
     fs = fsmodel.FS()
     L = instrument.load(SOL, rebind={"h5py": fsmodel.H5(fs)}, mutate=mut, vc=vcm.VC())
 
     def body():
+        sym.ctx().record_prefixes = tuple(prefixes)
         Real = L["Solution"]
         from tdgl.solver.options import SolverOptions
         k = SI(z3.Int("solve_step"))
@@ -195,6 +196,7 @@ def run_solve_step(mutate=None):
         want = sym.ite(k.e == 0, smin, sym.ite(k.e < 0, smax + 1 + k, k))
         check("C14.solve_step.step_loaded_is_the_requested_one", z3.And(sym.eq(got["step"], want), sym.eq(s._solve_step, want)))
         check("C14.solve_step.dynamics_over_the_full_range", z3.And(sym.eq(got["rng"][0], smin), sym.eq(got["rng"][1], smax)))
+        check("C05.reader.records_read_over_all_frames_whatever_frame_is_loaded", z3.And(sym.eq(got["rng"][0], smin), sym.eq(got["rng"][1], smax)))
     obls, n = explore(body)
     return dict(obls=obls, paths=n, sources=[L.info()], consistent=True)
 
